@@ -134,17 +134,10 @@ def answer (evs : List Event) (q : Query) : String :=
   let inr := evs.filter (inRange q.start q.end_)
   let tri := inr.map (fun e => (e, evalFilter e q.filter))
   -- `!=` / NOT on a field that some event in range lacks: whether such an event matches is left to the
-  -- engine by the statement, but the engine's answer must not depend on the layout (it does: known finding)
-  let rec hasNeg : Filter → Bool
-    | .all => false
-    | .term _ => false
-    | .cmp _ op _ => op == .ne
-    | .and a b => hasNeg a || hasNeg b
-    | .or a b => hasNeg a || hasNeg b
-    | .not _ => true
-  let negSparse := if hasNeg q.filter && evs.any (fun e => q.filter.fields.any (fun f => (e.get f).isNone))
-    then ["negation-over-sparse-field"] else []
-  let cls := ((tri.flatMap (fun (_, (_, c)) => c)) ++ mixedTextFields inr q.filter.fields ++ negSparse).eraseDups
+  -- engine by the statement (`may`), but the engine's answer must not depend on the layout (two-layout cases;
+  -- the class labels negation-over-sparse-field / number-and-text-share-column were retired with the repairs
+  -- c02-1, c02-2, c02-4: such a disagreement is now reported without a class)
+  let cls := (tri.flatMap (fun (_, (_, c)) => c)).eraseDups
   let must := (tri.filter (fun (_, (t, _)) => t == Tri.yes)).map (·.1)
   let may := (tri.filter (fun (_, (t, _)) => t == Tri.either)).map (·.1)
   match q.stages with
@@ -167,9 +160,9 @@ def answer (evs : List Event) (q : Query) : String :=
     let rows := groups.map (fun (k, es) =>
       hexOf (showKey k) ++ "=" ++ ";".intercalate (aggs.map (fun a => match evalAgg es a with | .num q => showRat q | .none => "none")))
     let rows := sortBy (fun a b => a ≤ b) rows
-    -- `by-field-sparse` names the input class on which the comparison grants the empty-key group (lib/e2ecmp.py); it is
-    -- no longer a recorded deviation class, nor are measure-field-sparse / measure-field-absent-from-dataset (repaired)
-    let scls := if must.any (fun e => bys.any (fun b => (e.get b).isNone)) then ["by-field-sparse"] else []
+    -- some matched event lacks a by-field: the comparison grants the extra empty-key group (lib/e2ecmp.py).  The former
+    -- deviation classes by-field-sparse / measure-field-sparse / measure-field-absent-from-dataset are repaired and gone.
+    let scls := if must.any (fun e => bys.any (fun b => (e.get b).isNone)) then ["grant:empty-by-key"] else []
     s!"kind=stats rows={",".intercalate rows} nmay={may.length} cls={",".intercalate (cls ++ scls)}"
   | _ => "kind=unsupported"
 
